@@ -93,7 +93,11 @@ pub enum ValKind {
     Sum5,
     Asym3,
     Never,
+    /// Asym3, every call logged (free-running parallel clients: the calls on one key must form a chain)
+    Logged,
 }
+pub static VLOG_ON: std::sync::atomic::AtomicBool = std::sync::atomic::AtomicBool::new(false);
+pub static VLOG: Mutex<Vec<(u64, u64, bool)>> = Mutex::new(Vec::new());
 pub struct HValidator(pub ValKind);
 impl UpdateValidator for HValidator {
     type Value = V;
@@ -103,8 +107,64 @@ impl UpdateValidator for HValidator {
             ValKind::Sum5 => (prev.id + curr.id) % 5 != 0,
             ValKind::Asym3 => (prev.id + 2 * curr.id) % 5 != 0,
             ValKind::Never => false,
+            ValKind::Logged => {
+                let ok = (prev.id + 2 * curr.id) % 5 != 0;
+                if VLOG_ON.load(std::sync::atomic::Ordering::SeqCst) {
+                    VLOG.lock().push((prev.id, curr.id, ok));
+                    // the verdict takes a little while: other writers of the key queue up behind this one
+                    let t0 = std::time::Instant::now();
+                    while t0.elapsed() < Duration::from_micros(30) {
+                        std::hint::spin_loop();
+                    }
+                }
+                ok
+            }
         }
     }
+}
+
+
+/// the builder's setters in one of three orders (type-changing ones first / last / interleaved): the
+/// cache that comes out must be the same whatever the order
+#[macro_export]
+macro_rules! build_in_order {
+    ($b:expr, $order:expr, $coster:expr, $validator:expr, $buf:expr, $bi:expr, $metrics:expr, $ignore:expr, $tick:expr; $($fin:tt)+) => {
+        match $order % 3 {
+            0 => $b
+                .set_hasher($crate::cache::S::default())
+                .set_coster($coster)
+                .set_update_validator($validator)
+                .set_callback($crate::cache::HCallback)
+                .set_buffer_size($buf)
+                .set_buffer_items($bi)
+                .set_metrics($metrics)
+                .set_ignore_internal_cost($ignore)
+                .set_cleanup_duration($tick)
+                .$($fin)+,
+            1 => $b
+                .set_buffer_size($buf)
+                .set_buffer_items($bi)
+                .set_metrics($metrics)
+                .set_ignore_internal_cost($ignore)
+                .set_cleanup_duration($tick)
+                .set_hasher($crate::cache::S::default())
+                .set_coster($coster)
+                .set_update_validator($validator)
+                .set_callback($crate::cache::HCallback)
+                .$($fin)+,
+            _ => $b
+                .set_metrics($metrics)
+                .set_coster($coster)
+                .set_ignore_internal_cost($ignore)
+                .set_update_validator($validator)
+                .set_buffer_size($buf)
+                .set_callback($crate::cache::HCallback)
+                .set_buffer_items($bi)
+                .set_hasher($crate::cache::S::default())
+                .set_cleanup_duration($tick)
+                .$($fin)+,
+        }
+    };
 }
 
 static CALLBACKS: Mutex<Vec<Value>> = Mutex::new(Vec::new());
@@ -329,34 +389,18 @@ impl World {
             "sync" => {
                 let cfgc = cfg.clone();
                 let (c, parked) = verif::build_parked(move || {
-                    CacheBuilder::new_with_key_builder(cfgc.num_counters, cfgc.max_cost, TabKeys)
-                        .set_hasher(S::default())
-                        .set_coster(HCoster(cfgc.coster))
-                        .set_update_validator(HValidator(cfgc.validator))
-                        .set_callback(HCallback)
-                        .set_buffer_size(cfgc.buf_cap)
-                        .set_buffer_items(cfgc.buffer_items)
-                        .set_metrics(cfgc.metrics)
-                        .set_ignore_internal_cost(cfgc.ignore_internal)
-                        .set_cleanup_duration(Duration::from_secs(3600))
-                        .finalize()
+                    crate::build_in_order!(CacheBuilder::new_with_key_builder(cfgc.num_counters, cfgc.max_cost, TabKeys), cfgc.start_ms,
+                        HCoster(cfgc.coster), HValidator(cfgc.validator), cfgc.buf_cap, cfgc.buffer_items, cfgc.metrics, cfgc.ignore_internal,
+                        Duration::from_secs(3600); finalize())
                 });
                 (AnyCache::Sync(c.expect("finalize sync")), parked)
             }
             _ => {
                 let cfgc = cfg.clone();
                 let (c, parked) = verif::build_parked(move || {
-                    AsyncCacheBuilder::new_with_key_builder(cfgc.num_counters, cfgc.max_cost, TabKeys)
-                        .set_hasher(S::default())
-                        .set_coster(HCoster(cfgc.coster))
-                        .set_update_validator(HValidator(cfgc.validator))
-                        .set_callback(HCallback)
-                        .set_buffer_size(cfgc.buf_cap)
-                        .set_buffer_items(cfgc.buffer_items)
-                        .set_metrics(cfgc.metrics)
-                        .set_ignore_internal_cost(cfgc.ignore_internal)
-                        .set_cleanup_duration(Duration::from_secs(3600))
-                        .finalize(|_f| panic!("processor must be parked, not spawned"))
+                    crate::build_in_order!(AsyncCacheBuilder::new_with_key_builder(cfgc.num_counters, cfgc.max_cost, TabKeys), cfgc.start_ms,
+                        HCoster(cfgc.coster), HValidator(cfgc.validator), cfgc.buf_cap, cfgc.buffer_items, cfgc.metrics, cfgc.ignore_internal,
+                        Duration::from_secs(3600); finalize(|_f| panic!("processor must be parked, not spawned")))
                 });
                 (AnyCache::Async(c.expect("finalize async")), parked)
             }
@@ -418,7 +462,7 @@ impl World {
         };
         let hdr = json!({"ev":"Init","flavor":w.cfg.flavor,"bufcap":w.cfg.buf_cap,"max":w.cfg.max_cost,
             "itemsize":w.item_size,"coster":match w.cfg.coster {CosterKind::Const2=>"const2",CosterKind::Mod3=>"mod3",CosterKind::Zero=>"zero"},
-            "validator":match w.cfg.validator {ValKind::Always=>"always",ValKind::Sum5=>"sum5",ValKind::Asym3=>"asym3",ValKind::Never=>"never"},
+            "validator":match w.cfg.validator {ValKind::Always=>"always",ValKind::Sum5=>"sum5",ValKind::Asym3=>"asym3",ValKind::Never=>"never",ValKind::Logged=>"asym3"},
             "now":w.now_ms,"clients":w.cfg.clients,"nc":w.cfg.num_counters,"bi":w.cfg.buffer_items,"metrics":w.cfg.metrics,
             "post":std::panic::catch_unwind(std::panic::AssertUnwindSafe(|| post(&w.cache))).unwrap_or(json!({"panic":true}))});
         w.t.push(hdr);
@@ -659,7 +703,35 @@ impl World {
                     popped = false;
                 }
                 let long = kind != "wait";
-                let released = self.clients[c].actor.wait_unblocked(if long { Duration::from_secs(20) } else { Duration::from_millis(60) });
+                let mut released = false;
+                if kind == "rem_send" && !self.proc_exited {
+                    // several clients may be blocked on the full buffer: the channel lets in the one that blocked first,
+                    // which need not be this one -- wait until ANY of them gets through
+                    let group: Vec<usize> = (0..self.clients.len())
+                        .filter(|&x| self.clients[x].cur.is_some() && self.clients[x].blocked == Some("rem_send"))
+                        .collect();
+                    let t0 = std::time::Instant::now();
+                    let mut other = false;
+                    while !released && !other && t0.elapsed() < Duration::from_secs(20) {
+                        for &x in group.iter() {
+                            if self.clients[x].actor.wait_unblocked(Duration::from_millis(2)) {
+                                if x == c {
+                                    released = true;
+                                } else {
+                                    other = true;
+                                }
+                                break;
+                            }
+                        }
+                    }
+                    if other {
+                        // the slot went to a client later in this loop (or already visited: it is picked up by the next step)
+                        popped = true;
+                        continue;
+                    }
+                } else {
+                    released = self.clients[c].actor.wait_unblocked(if long { Duration::from_secs(20) } else { Duration::from_millis(60) });
+                }
                 if !released {
                     if long {
                         eprintln!("HARNESS: client {} still blocked in {} although it should have been released", c + 1, kind);
@@ -1172,14 +1244,17 @@ fn pick_cmd(rng: &mut StdRng, p: &Profile) -> Cmd {
         7 => Cmd::Clear,
         8 => Cmd::Close,
         9 => Cmd::Wait,
-        10 => Cmd::SetMax { m: rng.gen_range(1..=p.max_cost.1 + 2) },
+        10 => Cmd::SetMax {
+            // boundary values often: zero (which the builder refuses but update_max_cost takes), negative, one
+            m: if rng.gen_bool(0.45) { [0i64, 0, 0, -1, 1][rng.gen_range(0..5)] } else { rng.gen_range(1..=p.max_cost.1 + 2) },
+        },
         _ => Cmd::Observe,
     }
 }
 
 fn quiesce(w: &mut World) {
     for _ in 0..500 {
-        if w.proc_exited() {
+        if w.proc_exited() || w.aborted {
             break;
         }
         if w.proc_parked() {
@@ -1213,6 +1288,10 @@ pub fn random_walk(rng: &mut StdRng, p: &Profile, t: Trace) -> (Trace, usize, Ve
     };
     let mut w = World::new(cfg, t);
     for _ in 0..p.steps {
+        if w.aborted {
+            // an actor is stuck inside the code under test: the instance ends here
+            break;
+        }
         if rng.gen_bool(p.p_advance) {
             let dt = p.advances[rng.gen_range(0..p.advances.len())];
             w.advance(dt);
@@ -1472,6 +1551,21 @@ pub fn profile(name: &str, flavor: &'static str) -> Profile {
             max_cost: (20, 30),
             ..base
         },
+        "cond_internal" => Profile {
+            name: "cond_internal",
+            validator: ValKind::Asym3,
+            w: [14, 8, 30, 12, 16, 2, 6, 1, 0, 2, 0, 1],
+            p_advance: 0.15,
+            p_tick: 0.3,
+            ttls: vec![500, 1500],
+            advances: vec![400, 700, 1100],
+            keys: vec![0, 3, 4],
+            steps: 110,
+            ignore_internal: false,
+            coster: CosterKind::Mod3,
+            max_cost: (150, 400),
+            ..base
+        },
         "seq_coster0" => Profile { name: "seq_coster0", coster: CosterKind::Zero, ignore_internal: false, max_cost: (150, 400), costs: vec![0, 0, 1, 7], ..base },
         "coll" => Profile {
             name: "coll",
@@ -1523,7 +1617,7 @@ pub fn profile(name: &str, flavor: &'static str) -> Profile {
             sequential: false,
             steps: 140,
             keys: vec![0, 3, 4, 5, 6, 7, 8],
-            w: [50, 0, 4, 6, 8, 0, 0, 0, 0, 4, 2, 1],
+            w: [50, 0, 4, 6, 8, 0, 0, 0, 0, 4, 4, 1],
             buf_cap: (2, 4),
             max_cost: (5, 9),
             costs: vec![1, 1, 2, 3, 5, 6],
